@@ -115,6 +115,47 @@ def make_explicit(stms, pool):
     return body
 
 
+WARM_OUTER = ["for _i_ in __e__:\n    ___", "_t_ = __e__", "print(__e__)", "if __e__:\n    ___", "while __e__:\n    ___",
+              "_t_ = _f_(__e__, ___)", "___ = ___ + __e__"]
+WARM_INNER = ["range(___)", "___ + ___", "_v_", "___[___]", "___ < ___"]
+
+
+def make_after_submatch(stms, pool):
+    """Histories on one loaded submission: first an instructor-style two-level search (a pattern, then a sub-pattern
+    below the node bound to __e__, as CAIT's documentation recommends), then the by-construction patterns.  What was
+    findable before other searches is findable after them: searching must not alter the (cached) student tree."""
+    def body(ctx):
+        n = ctx.choose(2, 'n') + 1
+        idx = [ctx.choose(len(stms) if i == 0 else min(pool, len(stms)), 's%d' % i) for i in range(n)]
+        code = "\n".join(stms[i] for i in idx) + "\n"
+        outer = WARM_OUTER[ctx.choose(len(WARM_OUTER), 'outer')]
+        inner = WARM_INNER[ctx.choose(len(WARM_INNER), 'inner')]
+        ders = _derived(code, False, False)
+        di = ctx.choose(len(ders), 'derivation')
+        pat, what, exp = ders[di]
+        ctx.observe('|'.join((code, outer, inner, pat)))
+        ctx.set_sample({'program': code, 'warm_up': [outer, inner], 'pattern': pat, 'derivation': what})
+        cmds.clear_report()
+        cmds.contextualize_report(code)
+        ctx.step(('two-level search', outer, inner))
+        subs = 0
+        try:
+            for m in find_matches(outer):
+                subs += 1 + len(m['__e__'].find_matches(inner))
+        except Exception as e:
+            ctx.fail({'symptom': 'two-level search raised', 'exception': type(e).__name__}, program=code, outer=outer,
+                     inner=inner, message=str(e)[:200])
+            return
+        if not subs:
+            ctx.abstain()
+            return
+        judge(ctx, code, pat, what, exp)
+        for sig, det in ctx.fails:
+            sig['after'] = 'two-level search'
+            det['warm_up'] = [outer, inner]
+    return body
+
+
 def bounds(tier):
     return {'statements': len(cc.STM), 'max_statements': 2, 'second_statement_pool': 12 if tier == 'quick' else len(cc.STM),
             'derivations': 'whole, each statement, each expression -> ___/__e__, each identifier -> _v_, all identifiers '
@@ -133,4 +174,6 @@ def phases(tier):
               describe='programs of <=4 similar assignments x drop/rename-all/wildcard compositions'),
         Phase('explicit-code', make_explicit(cc.STM, 14), setup=_setup, chunk=300,
               describe='find_matches(pattern, code) while another submission is loaded'),
+        Phase('after-sub-match', make_after_submatch(cc.STM, 4 if not th else 12), setup=_setup, chunk=300,
+              describe='every derived pattern again after a two-level search (pattern, then sub-pattern below __e__)'),
     ]
